@@ -6,6 +6,7 @@ import (
 	"sort"
 	"strconv"
 	"strings"
+	"time"
 
 	"verif/internal/core"
 )
@@ -454,7 +455,80 @@ type c17Replay struct {
 	CPU   int    `json:"cpu"`
 }
 
+// c17SessionFormat: the ordering and partitioning column of the OVER clause holds datetimes written in a format only the session
+// knows (SET @@DATETIME_FORMAT, here a format that begins with the month's name): they are ordered and grouped as the instants
+// they denote, not as texts.
+func c17SessionFormat(w *core.Worker, i int) {
+	r := w.Rng(i, "session-format")
+	n := r.Range(4, 40)
+	type rw struct {
+		id int
+		ts time.Time
+		g  int
+	}
+	var rows []rw
+	var sb strings.Builder
+	sb.WriteString("id,ts,g\n")
+	for k := 1; k <= n; k++ {
+		t := time.Date(2020+r.Intn(2), time.Month(1+r.Intn(12)), 1+r.Intn(28), 0, 0, 0, 0, time.UTC)
+		rows = append(rows, rw{k, t, r.Intn(3)})
+		fmt.Fprintf(&sb, "%d,%s,%d\n", k, t.Format("Jan 2 2006"), rows[k-1].g)
+	}
+	core.WriteFiles(w.Work, map[string]string{"sf.csv": sb.String()})
+	s, err := core.NewSess(core.SessOpts{Dir: w.Work, Quiet: true})
+	if err != nil {
+		w.Inconclusive(err.Error())
+		return
+	}
+	defer s.Close()
+	s.Exec("SET @@DATETIME_FORMAT TO '%b %e %Y';")
+	q := "SELECT id, RANK() OVER (ORDER BY ts) AS rk, ROW_NUMBER() OVER (PARTITION BY g ORDER BY ts DESC, id) AS rn, COUNT(*) OVER (PARTITION BY ts) AS same, LAG(id) OVER (ORDER BY ts, id) AS prev FROM sf"
+	res := s.Exec(q + ";")
+	if res.Err != nil || len(res.Views) != 1 || len(res.Views[0].Rows) != n {
+		w.Violation("session-format:query-error", fmt.Sprintf("%s: %v", q, res.Err), c17Replay{Table: sb.String(), Query: q})
+		return
+	}
+	byTs := append([]rw{}, rows...)
+	sort.SliceStable(byTs, func(a, b int) bool {
+		if !byTs[a].ts.Equal(byTs[b].ts) {
+			return byTs[a].ts.Before(byTs[b].ts)
+		}
+		return byTs[a].id < byTs[b].id
+	})
+	prev := map[int]string{}
+	for k, x := range byTs {
+		prev[x.id] = "N:"
+		if k > 0 {
+			prev[x.id] = "S:" + strconv.Itoa(byTs[k-1].id)
+		}
+	}
+	for _, row := range res.Views[0].Rows {
+		id, _ := strconv.Atoi(row[0].S)
+		me := rows[id-1]
+		rk, rn, same := 1, 1, 0
+		for _, o := range rows {
+			if o.ts.Before(me.ts) {
+				rk++
+			}
+			if o.ts.Equal(me.ts) {
+				same++
+			}
+			if o.g == me.g && (o.ts.After(me.ts) || (o.ts.Equal(me.ts) && o.id < me.id)) {
+				rn++
+			}
+		}
+		if row[1].S != strconv.Itoa(rk) || row[2].S != strconv.Itoa(rn) || row[3].S != strconv.Itoa(same) || (row[4].String() != prev[id] && strings.TrimPrefix(row[4].String(), "I:") != strings.TrimPrefix(prev[id], "S:")) {
+			w.Violation("value:session-datetime-format", fmt.Sprintf("%s under DATETIME_FORMAT '%%b %%e %%Y': row id %d (%s, g=%d) has RANK %s, ROW_NUMBER %s, COUNT OVER (PARTITION BY ts) %s, LAG(id) %v; by instants: %d, %d, %d, %s", q, id, me.ts.Format("Jan 2 2006"), me.g, row[1].S, row[2].S, row[3].S, row[4], rk, rn, same, prev[id]), c17Replay{Table: sb.String(), Query: q})
+			return
+		}
+	}
+	w.Count("tables_ordered_by_datetimes_in_a_format_of_the_session", 1)
+}
+
 func c17Case(w *core.Worker, i int) {
+	if i%10 == 4 {
+		c17SessionFormat(w, i)
+	}
 	r := w.Rng(i, "")
 	big := i%8 == 7
 	n := pickSize(r, big)
